@@ -718,6 +718,46 @@ fn specs(quick: bool) -> Vec<ConvSpec> {
             sparse: true,
         });
     }
+    // replies of 2^24-1 bytes and more: the packet writer touches the transport in the middle of a
+    // message (a maximal packet is handed over while the rest is still being assembled), so every
+    // operation of such a reply fails once, fails for good, is interrupted; with an explicit finish,
+    // with the writers finalised by drop, in both protocols, under whole and 65537-byte writes
+    for (bin, wc, pname, tail) in [
+        (false, usize::MAX, "row + finish", vec![WOp::Finish]),
+        (false, usize::MAX, "row, writers dropped", vec![]),
+        (true, usize::MAX, "row + finish", vec![WOp::Finish]),
+        (false, 65537, "row + finish", vec![WOp::Finish]),
+        (true, 65537, "row, writers dropped", vec![]),
+    ] {
+        if quick && wc != usize::MAX && bin {
+            continue;
+        }
+        let c1 = Arc::new(vec![col("big", ColumnType::MYSQL_TYPE_BLOB, ColumnFlags::empty()), col("n", ColumnType::MYSQL_TYPE_LONG, ColumnFlags::empty())]);
+        let big: Vec<u8> = (0..MAXP + 11).map(|i| (i % 251) as u8).collect();
+        let mut p = vec![WOp::Start(c1), WOp::WriteRow(vec![Val::Bytes(big), Val::I32(77)])];
+        p.extend(tail);
+        let mut cmds = Vec::new();
+        if bin {
+            cmds.push(ClientCmd::new(with_byte(COM_STMT_PREPARE, b"id=1 p=0")));
+            cmds.push(ClientCmd::new(cmd_execute(1, 0, 1, &[])));
+        } else {
+            cmds.push(q(b"big"));
+        }
+        cmds.push(ping());
+        cmds.push(quit());
+        v.push(ConvSpec {
+            label: format!("{} answered with a row of 2^24+10 bytes and more ({}{}) + ping + quit", if bin { "execute" } else { "query" }, pname, if wc == usize::MAX { "".to_string() } else { format!(", {}-byte writes", wc) }),
+            cmds,
+            progs: vec![Arc::new(p)],
+            fail_at: None,
+            auth_reject: false,
+            uniform_read: usize::MAX,
+            write_cap: wc,
+            cuts: vec![],
+            lockstep: false,
+            sparse: wc != usize::MAX,
+        });
+    }
     v
 }
 
@@ -758,7 +798,7 @@ pub fn build(quick: bool) -> Check {
     Check {
         id: "C19",
         level: "fault_enumeration",
-        rule: format!("{} conversations (writer programs with explicit finish and with implicit drops, text and binary, chained results, long data, close, quit, library replies, auth rejection, a shim error in each callback; each writer program followed by a library-answered command, by another shim command + QUIT, and by QUIT alone; pipelined and with a lock-step client; under 1-byte reads and short writes; requests of 2^24-1 bytes and more with end-of-stream within 6 bytes of every packet header and message end; the plain conversations again under one read boundary next to every packet header (thorough: at every position), each with its own fault-free operation log). For each, from the operation log of its fault-free run: end of stream after every byte count 0..M, an error of each of 4 kinds once and persistently at every operation index, a zero-length write at every write; ErrorKind::Interrupted once at every operation (must either be retried without any visible difference or be reported like any other error). Oracle: Ok iff fault-free and the client quit or closed at a message boundary after the handshake; every fault => Err, never Ok, never a panic; no callback starts after the failed operation; a shim error is returned as the identical value. Non-trivial = a fault strictly inside the conversation (not a clean close).", n),
+        rule: format!("{} conversations (writer programs with explicit finish and with implicit drops, text and binary, chained results, long data, close, quit, library replies, auth rejection, a shim error in each callback; each writer program followed by a library-answered command, by another shim command + QUIT, and by QUIT alone; pipelined and with a lock-step client; under 1-byte reads and short writes; requests of 2^24-1 bytes and more with end-of-stream within 6 bytes of every packet header and message end; replies holding a row of more than 2^24-1 bytes (explicit finish and writers finalised by drop, text and binary, whole and 65537-byte writes) with every operation failing once / for good / interrupted; the plain conversations again under one read boundary next to every packet header (thorough: at every position), each with its own fault-free operation log). For each, from the operation log of its fault-free run: end of stream after every byte count 0..M, an error of each of 4 kinds once and persistently at every operation index, a zero-length write at every write; ErrorKind::Interrupted once at every operation (must either be retried without any visible difference or be reported like any other error). Oracle: Ok iff fault-free and the client quit or closed at a message boundary after the handshake; every fault => Err, never Ok, never a panic; no callback starts after the failed operation; a shim error is returned as the identical value. Non-trivial = a fault strictly inside the conversation (not a clean close).", n),
         assumptions: vec![
             "ErrorKind::Interrupted is injected once per operation only (a persistent one makes std's write_all spin by contract); both a transparent retry and an error return are accepted".into(),
             "fault points are derived from the fault-free run of the tree under test, not from constants".into(),
